@@ -97,7 +97,12 @@ pub fn from_unixtime_us(
     mut args: Args,
     _return_type: &TypeScheme,
 ) -> Result<Value, Box<RuntimeErrorKind>> {
-    let us = quantity_arg!(args).unsafe_value().to_f64() as i64;
+    // Note: `as i64` would silently turn NaN into 0 (i.e. 1970-01-01)
+    let us = quantity_arg!(args)
+        .unsafe_value()
+        .to_f64()
+        .to_i64()
+        .ok_or(RuntimeErrorKind::DateTimeOutOfRange)?;
 
     let dt = Timestamp::from_microsecond(us)
         .map_err(|_| RuntimeErrorKind::DateTimeOutOfRange)?
